@@ -165,6 +165,16 @@ func (x *Exec) Verify() *VerifyResult {
 		x.safetyOn = true
 	}
 	st := x.initState.Clone()
+	// ghost variables declared in the spec library: arbitrary initial values
+	if x.ghostDecl == nil {
+		x.ghostDecl = map[string]types.Type{}
+	}
+	gctx := &EvalCtx{x: x, st: st, old: st, names: map[string]EV{}}
+	for _, g := range x.prog.Ghosts {
+		gt := gctx.resolveType(g.Type)
+		x.ghostDecl[g.Name] = gt
+		st.ghost[g.Name] = x.symbolic(st, gt, "ghost."+g.Name, true, 0)
+	}
 	// parameters
 	var params []SVal
 	for _, p := range fn.Params {
@@ -184,6 +194,14 @@ func (x *Exec) Verify() *VerifyResult {
 	fr.entry = entry
 	x.entryMem = entry.mem
 	x.lockDiscipline = hasLabel(c.Clauses, "lockdiscipline", x.prop)
+	x.guarded = map[string]bool{}
+	for _, cl := range c.ByKind("guarded") {
+		if x.prop == "" || cl.HasLabel(x.prop) {
+			for _, n := range cl.Names {
+				x.guarded[n] = true
+			}
+		}
+	}
 	_ = sig
 	x.runBlock(fr, fn.Blocks[0], nil, st, func(s2 *State, results []SVal) {
 		x.returns++
